@@ -4,7 +4,7 @@ HEADER = ("From Coq Require Import List NArith ZArith.\n"
           "From Dimod Require Import Base.Util Gen.Gen_Codec Model.Codec Model.ChkC09 Model.ChkC10.\nImport ListNotations.")
 CHECK_FN = "check"
 N_QUICK = 160
-N_THOROUGH = 3000
+N_THOROUGH = 1500
 SHARD = 10
 TIMEOUT = 3000
 SHRINK_KEYS = []
